@@ -238,6 +238,12 @@ func init() {
 			return i.mkSym(i.ex.Ctx.App("uf_"+sanitize(argString(a[0])), smt.FP64, i.term(a[1])), types.Float64)
 		},
 		"verif_thorough": func(fr *frame, a []value) value { return fr.i.ex.Tier == "thorough" },
+		// verif_alloc_limit(n): from now on the make() calls of this path may
+		// allocate n slice elements in total; exceeding it is a violation
+		"verif_alloc_limit": func(fr *frame, a []value) value {
+			fr.i.allocLimit, fr.i.allocUsed = asInt64(a[0]), 0
+			return nil
+		},
 		// verif_fill(p, seed): p points to a value whose every field (found
 		// through go/types) is set to a non-zero value that differs per field
 		// and per seed; fields of types the helper cannot build stay zero.
